@@ -68,24 +68,42 @@ DoRemap(pid, v, ds) ==
           ELSE Remap(pid, v, ds, [i \in 1..n |-> KthFree(FreeOn(Targets(ds[i])), Cardinality({j \in 1..i : ds[j] = ds[i]}))], dv)
      ELSE \E t \in T : OutOfMemory({t}, n)
 
-MCNext ==
-  /\ ~crashed /\ nops < MaxOps /\ nops' = nops + 1
-  /\ \/ \E pid \in Pids, d \in DevIds, n \in 1..MaxN : DoAlloc(pid, d, n)
-     \/ \E b \in LiveBufs : DoFree(b)
-     \/ \E b \in LiveBufs, d \in DevIds : \E off \in 0..(bufs[b].n - 1) : \E n \in 1..(bufs[b].n - off) :
-          /\ \A i \in 0..(n - 1) : <<bufs[b].pid, bufs[b].v + off + i>> \in DOMAIN pt
-          /\ DoRemap(bufs[b].pid, bufs[b].v + off, [i \in 1..n |-> d])
-     \/ \E b \in LiveBufs, gs \in GpuSeqs :
-          /\ Len(gs) > 1
-          /\ \A i \in 0..(bufs[b].n - 1) : <<bufs[b].pid, bufs[b].v + i>> \in DOMAIN pt
-          /\ DoRemap(bufs[b].pid, bufs[b].v, DistPlacement(bufs[b].n, gs))
-     \/ \E b \in LiveBufs, g \in Gpus : \E off \in 0..(bufs[b].n - 1) :
-          /\ <<bufs[b].pid, bufs[b].v + off>> \in DOMAIN pt
-          /\ WithinCap({g}, 1)
-          /\ IF FreeOn({g}) # {}
-             THEN \E p \in FreeOn({g}) : (PickAny \/ \A q \in FreeOn({g}) : q >= p)
-                                          /\ PrepareMigration(bufs[b].pid, bufs[b].v + off, g, p)
-             ELSE OutOfMemory({g}, 1)
+\* the calls the environment may issue in the current state (arguments valid; capacity is checked by Do)
+OpsNow ==
+  {[a |-> "Alloc", pid |-> p, dev |-> d, n |-> n] : p \in Pids, d \in DevIds, n \in 1..MaxN}
+  \cup {[a |-> "Free", b |-> b] : b \in LiveBufs}
+  \cup UNION {{[a |-> "Remap", b |-> b, dev |-> d, off |-> off, n |-> n] :
+                 d \in DevIds, off \in 0..(bufs[b].n - 1), n \in 1..bufs[b].n} : b \in LiveBufs}
+  \cup {[a |-> "Dist", b |-> b, gpus |-> gs] : b \in LiveBufs, gs \in {g \in GpuSeqs : Len(g) > 1}}
+  \cup UNION {{[a |-> "Mig", b |-> b, dev |-> g, off |-> off] : g \in Gpus, off \in 0..(bufs[b].n - 1)} : b \in LiveBufs}
+
+BufMapped(b, off, n) ==
+  /\ off + n <= bufs[b].n
+  /\ \A i \in 0..(n - 1) : <<bufs[b].pid, bufs[b].v + off + i>> \in DOMAIN pt
+
+Do(o) ==
+  CASE o.a = "Alloc" -> DoAlloc(o.pid, o.dev, o.n)
+    [] o.a = "Free" -> DoFree(o.b)
+    [] o.a = "Remap" -> /\ BufMapped(o.b, o.off, o.n)
+                        /\ DoRemap(bufs[o.b].pid, bufs[o.b].v + o.off, [i \in 1..o.n |-> o.dev])
+    [] o.a = "Dist" -> /\ BufMapped(o.b, 0, bufs[o.b].n)
+                       /\ DoRemap(bufs[o.b].pid, bufs[o.b].v, DistPlacement(bufs[o.b].n, o.gpus))
+    [] o.a = "Mig" -> /\ BufMapped(o.b, o.off, 1)
+                      /\ pt[<<bufs[o.b].pid, bufs[o.b].v + o.off>>].ppn \notin {p \in AllPages : OnDev(p, o.dev)}
+                      /\ WithinCap({o.dev}, 1)
+                      /\ IF FreeOn({o.dev}) # {}
+                         THEN \E p \in FreeOn({o.dev}) :
+                                /\ (PickAny \/ \A q \in FreeOn({o.dev}) : q >= p)
+                                /\ PrepareMigration(bufs[o.b].pid, bufs[o.b].v + o.off, o.dev, p)
+                         ELSE OutOfMemory({o.dev}, 1)
+
+Tick == ~crashed /\ nops < MaxOps /\ nops' = nops + 1
+AllocStep == Tick /\ \E o \in OpsNow : o.a = "Alloc" /\ Do(o)
+FreeStep == Tick /\ \E o \in OpsNow : o.a = "Free" /\ Do(o)
+RemapStep == Tick /\ \E o \in OpsNow : o.a = "Remap" /\ Do(o)
+DistStep == Tick /\ \E o \in OpsNow : o.a = "Dist" /\ Do(o)
+MigStep == Tick /\ \E o \in OpsNow : o.a = "Mig" /\ Do(o)
+MCNext == AllocStep \/ FreeStep \/ RemapStep \/ DistStep \/ MigStep
 
 MCSpec == Init /\ [][MCNext]_<<vars, nops>>
 =============================================================================
